@@ -269,11 +269,14 @@ impl Request {
     }
 
     pub fn parse_http_request_header_string(header_string: &str) -> Header {
-        let header_parts: Vec<&str> = header_string.split(Header::NAME_VALUE_SEPARATOR).collect();
-        let header_name = StringExt::truncate_new_line_carriage_return(header_parts[0]);
+        // the value may contain the separator itself, split at the first occurrence only
+        let boxed_split = header_string.split_once(Header::NAME_VALUE_SEPARATOR);
+        let mut header_name = StringExt::truncate_new_line_carriage_return(header_string);
         let mut header_value= "".to_string();
-        if header_parts.get(1).is_some() {
-            header_value = StringExt::truncate_new_line_carriage_return(header_parts[1]);
+        if boxed_split.is_some() {
+            let (name, value) = boxed_split.unwrap();
+            header_name = StringExt::truncate_new_line_carriage_return(name);
+            header_value = StringExt::truncate_new_line_carriage_return(value);
         }
 
         Header {
